@@ -306,28 +306,17 @@ Qed.
 
 Lemma fr_check_loop f e st s : π (nd (check_loop f e st s)) = π (nd s).
 Proof.
-  revert s. induction f as [|f IH]; intros s; cbn; [reflexivity|].
+  revert s. induction f as [|f IH]; intros s; cbn [check_loop]; [reflexivity|].
   destruct (_ <? _)%Z; [|reflexivity].
-  assert (G : forall s, match queue (nd s) with
+  assert (K : π (nd (match queue (nd s) with
             | [] => s
             | (c, cbk) :: rest =>
               let s := upd (fun n => n <| queue := rest |>) s in
               let s := check_one e c cbk s in
-              if ok s then check_loop f e st s else s end = s \/
-            exists c cbk rest, match queue (nd s) with
-            | [] => s
-            | (c, cbk) :: rest =>
-              let s := upd (fun n => n <| queue := rest |>) s in
-              let s := check_one e c cbk s in
-              if ok s then check_loop f e st s else s end =
-              (let s := check_one e c cbk (upd (fun n => n <| queue := rest |>) s) in
-               if ok s then check_loop f e st s else s)).
-  { intros s0. destruct (queue (nd s0)) as [|[c cbk] rest]; [now left|right; eauto]. }
-  assert (K : forall c cbk rest, π (nd (let s := check_one e c cbk (upd (fun n => n <| queue := rest |>) s) in
-               if ok s then check_loop f e st s else s)) = π (nd s)).
-  { intros c cbk rest. cbv zeta. destruct (ok _); rewrite ?IH, fr_check_one; fr. }
-  destruct (leader (nd s)); [|destruct (wait_leader (cf e)); [reflexivity|]];
-    (destruct (G s) as [-> | (c & cbk & rest & ->)]; [reflexivity|apply K]).
+              if ok s then check_loop f e st s else s end)) = π (nd s)).
+  { destruct (queue (nd s)) as [|[c cbk] rest]; [reflexivity|].
+    cbv zeta. destruct (ok _); rewrite ?IH, fr_check_one; fr. }
+  destruct (leader (nd s)); [exact K|]. destruct (wait_leader (cf e)); [reflexivity|exact K].
 Qed.
 
 Lemma fr_check_commands e s : π (nd (check_commands e s)) = π (nd s).
@@ -357,7 +346,7 @@ Qed.
 
 Lemma nd_commit_loop f ci nx s : nd (fst (commit_loop f ci nx s)) = nd s.
 Proof.
-  revert ci nx s. induction f as [|f IH]; intros ci nx s; cbn; [reflexivity|].
+  revert ci nx s. induction f as [|f IH]; intros ci nx s; cbn [commit_loop]; [reflexivity|].
   destruct (ci <? last_idx (log (nd s))); [|reflexivity].
   destruct (existsb _ _); [reflexivity|].
   destruct (negb _); [reflexivity|].
